@@ -6,6 +6,11 @@ patch=$1; shift
 exec 9>/var/tmp/repo-mutation.lock; flock 9
 cd /repo && git apply --check "$patch" || { echo "PATCH DOES NOT APPLY"; exit 2; }
 git apply "$patch"
+# wait out any in-flight cargo build of the harness (it may have read the OLD sources and would leave artefacts
+# that look fresh), then bump the mtime of the patched files so the mutant is certainly compiled in
+flock /verif/harness/target/debug/.cargo-lock true 2>/dev/null
+files=$(git apply --numstat "$patch" | awk '{print $3}')
+for f in $files; do touch "/repo/$f"; done
 bak=$(mktemp -d /var/tmp/runmut.XXXX)
 cp -a /verif/evidence "$bak/evidence"; cp -a /verif/lean/SwayVerif/Generated "$bak/Generated"
 for id in "$@"; do
@@ -13,4 +18,6 @@ for id in "$@"; do
   (cd /verif && ./check $id --tier quick 2>&1 | grep -E "VIOLATION|KNOWN-FINDING|done rc=|FAILED" | cut -c1-300)
 done
 cd /repo && git apply -R "$patch" && echo "reverted"
+flock /verif/harness/target/debug/.cargo-lock true 2>/dev/null
+for f in $files; do touch "/repo/$f"; done
 rm -rf /verif/evidence /verif/lean/SwayVerif/Generated; cp -a "$bak/evidence" /verif/evidence; cp -a "$bak/Generated" /verif/lean/SwayVerif/Generated; rm -rf "$bak"
